@@ -19,6 +19,9 @@ fn run_history(prop: &str, input: &T) -> T {
     let mut w = World::new(&mut rng, flags);
     w.tamper = matches!(prop, "C03" | "C06");
     w.dry = prop == "C45";
+    if flags & world::F_RELAYER != 0 {
+        w.init_relayer(&mut rng);
+    }
 
     // plans are generated block by block, but the first block's transactions exist before
     // the genesis dump so that a colliding genesis coin can be planted
@@ -85,7 +88,13 @@ fn run_history(prop: &str, input: &T) -> T {
         } else {
             w.contract
         };
-        let da = w.da_height + if rng.chance(1, 3) { rng.range(1, 3) } else { 0 };
+        let da = w.da_height.saturating_add(if flags & world::F_RELAYER != 0 {
+            rng.below(6)
+        } else if rng.chance(1, 3) {
+            rng.range(1, 3)
+        } else {
+            0
+        });
         let (bi, bo) = run::run_block(&mut w, &mut rng, BlockPlan { txs, policy, gas_price, recipient, da_height: da });
         ins.push(bi);
         outs.push(bo);
@@ -101,18 +110,21 @@ fn pick_price(rng: &mut Rng, flags: u64) -> u64 {
     *rng.pick(&[0u64, 0, 1, 1, 1, 2, 3, 7, 1000])
 }
 
-fn gen(_prop: &str, rng: &mut Rng, n: u64, tier: &str) -> Vec<T> {
+fn gen(prop: &str, rng: &mut Rng, n: u64, tier: &str) -> Vec<T> {
     let mut cases = vec![];
     let max_blocks = if tier == "thorough" { 6 } else { 4 };
     for k in 0..n {
-        let flags = match k % 8 {
+        let flags = if prop == "C05" {
+            world::F_RELAYER | if k % 5 == 4 { world::F_TINYGAS } else { 0 }
+        } else {
+            match k % 8 {
             0 | 1 | 2 => 0,
             3 => world::F_TINYGAS,
             4 => world::F_BADRECIPIENT,
             5 => world::F_TINYSIZE,
             6 => world::F_COLLIDE,
             _ => world::F_HUGEFEE,
-        };
+        }};
         cases.push(T::l(vec![
             T::n(rng.next() >> 16),
             T::n(rng.range(1, max_blocks)),
